@@ -449,6 +449,6 @@ pub fn run(ctx: &Ctx) {
         ctx.require_class("random_history", "delete_absent_class", 0.2);
     }
     if ctx.tier == Tier::Thorough && !ctx.failed() {
-        crate::engine::fuzz::run_filter_ops(ctx, 2, 1_500_000);
+        crate::engine::fuzz::run_filter_ops(ctx, 2, 160_000);
     }
 }
